@@ -79,6 +79,10 @@ class temperature(PseudoNetCDFFile):
         for i, (t, d) in enumerate(times):
             if (t, d) != (self.STIME, self.SDATE):
                 break
+        else:
+            # the number of layers is the distance to the second time
+            raise ValueError("No second time found; cannot infer layers " +
+                             "(single time or incomplete file)")
         self.SDATE = self.SDATE.view('i')
         self.createDimension('LAY', i - 1)
         self.createDimension('TSTEP', times.shape[0] / i)
